@@ -29,6 +29,98 @@ class IllConditioned(Exception):
     pass
 
 
+class OArr(np.ndarray):
+    """Object-dtype arrays that stay arrays: 0-d results of arithmetic, reductions and indexing
+    are returned as 0-d arrays instead of bare python objects."""
+
+    __array_priority__ = 100
+
+    def __array_wrap__(self, arr, context=None, return_scalar=False):
+        if not isinstance(arr, OArr):
+            arr = np.asarray(arr, dtype=object).view(OArr)
+        return arr
+
+    def __getitem__(self, idx):
+        r = super().__getitem__(idx)
+        if not isinstance(r, np.ndarray):
+            o = np.empty((), dtype=object)
+            o[()] = r
+            return o.view(OArr)
+        return r
+
+
+def plain(x):
+    """Plain (non-OArr) object ndarray whose elements are python scalars."""
+    a = np.asarray(x, dtype=object).view(np.ndarray)
+    if a.ndim == 0:
+        v = a[()]
+        while isinstance(v, np.ndarray):
+            v = v.reshape(()).view(np.ndarray)[()]
+        o = np.empty((), dtype=object)
+        o[()] = v
+        return o
+    if a.size and isinstance(a.flat[0], np.ndarray):
+        o = np.empty(a.shape, dtype=object)
+        for idx in np.ndindex(a.shape):
+            v = a[idx]
+            while isinstance(v, np.ndarray):
+                v = v.reshape(()).view(np.ndarray)[()]
+            o[idx] = v
+        return o
+    return a
+
+
+def fix(x):
+    """Re-wrap object arrays that lost the OArr subclass (or degraded to a python scalar)."""
+    if isinstance(x, OArr):
+        return x
+    if isinstance(x, np.ndarray):
+        if x.dtype == object:
+            return x.view(OArr)
+        return x
+    if isinstance(x, (int, float, complex, np.generic)):
+        return x
+    o = np.empty((), dtype=object)
+    o[()] = x
+    return o.view(OArr)
+
+
+def bcast(*arrs):
+    return np.broadcast_arrays(*arrs, subok=True)
+
+
+def where(m, a, b):
+    return fix(np.where(m, a, b))
+
+
+def einsum(spec, *ops):
+    return fix(np.einsum(spec, *ops))
+
+
+def acopy(x):
+    return fix(np.array(x, copy=True))
+
+
+def broadcast_to(x, shape):
+    return np.broadcast_to(x, shape, subok=True)
+
+
+def trace(a, axis1, axis2):
+    if a.dtype != object:
+        return np.trace(a, axis1=axis1, axis2=axis2)
+    n = a.shape[axis1]
+    out = None
+    hi, lo = max(axis1, axis2), min(axis1, axis2)
+    for i in range(n):
+        t = np.take(np.take(a, i, axis=hi), i, axis=lo)
+        out = t if out is None else out + t
+    return fix(out)
+
+
+def stack(arrs, axis=0):
+    return fix(np.stack(arrs, axis=axis))
+
+
 class Backend:
     name = "?"
 
@@ -264,10 +356,21 @@ class MPBackend(Backend):
         super().__init__()
         self.mp = mpmath.mp.clone()
         self.mp.dps = dps
+        _orig_convert = self.mp.convert
+
+        def _convert(x, strings=True):
+            # 0-d numpy object arrays (OArr) unwrap to the mp number they hold
+            while isinstance(x, np.ndarray) and x.ndim == 0:
+                x = x.view(np.ndarray)[()]
+            return _orig_convert(x, strings)
+
+        self.mp.convert = _convert
         self._mpc = self.mp.mpc
         self._v = {}
 
     def scalar(self, x):
+        if isinstance(x, np.ndarray):
+            x = x.reshape(()).view(np.ndarray)[()]
         if isinstance(x, (self.mp.mpf, self.mp.mpc)):
             return x
         if isinstance(x, Fraction):
@@ -280,12 +383,12 @@ class MPBackend(Backend):
         out = np.empty(a.shape, dtype=object)
         for idx in np.ndindex(a.shape):
             out[idx] = self.scalar(a[idx])
-        return out
+        return out.view(OArr)
 
     def zeros(self, shape):
         out = np.empty(shape, dtype=object)
         out.fill(self._mpc(0))
-        return out
+        return out.view(OArr)
 
     def _vec(self, f):
         if f not in self._v:
@@ -293,24 +396,24 @@ class MPBackend(Backend):
         return self._v[f]
 
     def _apply(self, f, x):
-        x = np.asarray(x, dtype=object)
+        x = plain(x)
         out = np.empty(x.shape, dtype=object)
         for idx in np.ndindex(x.shape):
             out[idx] = f(x[idx])
-        return out
+        return out.view(OArr)
 
     def det(self, a):
         if a.shape == (0, 0):
             return self._mpc(1)
-        return self.mp.det(self.mp.matrix(a.tolist()))
+        return self.mp.det(self.mp.matrix(plain(a).tolist()))
 
     def inv(self, a):
-        m = self.mp.inverse(self.mp.matrix(a.tolist()))
+        m = self.mp.inverse(self.mp.matrix(plain(a).tolist()))
         out = np.empty(a.shape, dtype=object)
         for i in range(a.shape[0]):
             for j in range(a.shape[1]):
                 out[i, j] = m[i, j]
-        return out
+        return out.view(OArr)
 
     def real_part(self, a):
         return self._apply(lambda z: self._mpc(self.mp.re(z)), a)
@@ -322,14 +425,14 @@ class MPBackend(Backend):
         return self._apply(self.mp.conj, a)
 
     def to_float_abs(self, a):
-        a = np.asarray(a, dtype=object)
+        a = plain(a)
         out = np.empty(a.shape, dtype=float)
         for idx in np.ndindex(a.shape):
             out[idx] = float(abs(a[idx]))
         return out
 
     def to_complex(self, a):
-        a = np.asarray(a, dtype=object)
+        a = plain(a)
         out = np.empty(a.shape, dtype=complex)
         for idx in np.ndindex(a.shape):
             out[idx] = complex(a[idx])
@@ -345,8 +448,9 @@ class MPBackend(Backend):
         return z
 
     def _near_cut(self, x, what):
+        x = plain(x)
         for idx in np.ndindex(np.shape(x)):
-            z = complex(np.asarray(x, dtype=object)[idx])
+            z = complex(x[idx])
             if abs(z) < self.tol_small:
                 self.flag(what + ":small-argument")
             elif z.real < 0 and 1e-13 * abs(z) < abs(z.imag) < self.tol_small * abs(z):
@@ -415,7 +519,7 @@ class MPBackend(Backend):
     def atan2(self, y, x):
         y = np.asarray(y, dtype=object)
         x = np.asarray(x, dtype=object)
-        y, x = np.broadcast_arrays(y, x)
+        y, x = bcast(y, x)
         out = np.empty(y.shape, dtype=object)
         for idx in np.ndindex(y.shape):
             out[idx] = self._mpc(self.mp.atan2(self.mp.re(y[idx]), self.mp.re(x[idx])))
@@ -425,7 +529,7 @@ class MPBackend(Backend):
         return self._apply(lambda z: self._mpc(self.mp.sign(self.mp.re(z))), x)
 
     def compare(self, op, a, b):
-        a, b = np.broadcast_arrays(np.asarray(a, dtype=object), np.asarray(b, dtype=object))
+        a, b = bcast(np.asarray(a, dtype=object), np.asarray(b, dtype=object))
         out = np.empty(a.shape, dtype=bool)
         re = self.mp.re
         for idx in np.ndindex(a.shape):
@@ -447,6 +551,7 @@ class MPBackend(Backend):
         return out
 
     def check_finite(self, arr, what):
+        arr = plain(arr)
         for idx in np.ndindex(arr.shape):
             if not self.mp.isfinite(arr[idx]):
                 self.flag("nonfinite:" + what)
@@ -456,6 +561,7 @@ class MPBackend(Backend):
         pass
 
     def small_divisor(self, arr):
+        arr = plain(arr)
         for idx in np.ndindex(arr.shape):
             if abs(complex(arr[idx])) < self.tol_small:
                 self.flag("division:small-divisor")
@@ -468,6 +574,8 @@ class QBackend(Backend):
     name = "fraction"
 
     def scalar(self, x):
+        if isinstance(x, np.ndarray):
+            x = x.reshape(()).view(np.ndarray)[()]
         if isinstance(x, Fraction):
             return x
         if isinstance(x, complex):
@@ -481,17 +589,18 @@ class QBackend(Backend):
         out = np.empty(a.shape, dtype=object)
         for idx in np.ndindex(a.shape):
             out[idx] = self.scalar(a[idx])
-        return out
+        return out.view(OArr)
 
     def zeros(self, shape):
         out = np.empty(shape, dtype=object)
         out.fill(Fraction(0))
-        return out
+        return out.view(OArr)
 
     def det(self, a):
         n = a.shape[0]
         if n == 0:
             return Fraction(1)
+        a = plain(a)
         m = [[Fraction(a[i, j]) for j in range(n)] for i in range(n)]
         det = Fraction(1)
         for c in range(n):
@@ -510,6 +619,7 @@ class QBackend(Backend):
 
     def inv(self, a):
         n = a.shape[0]
+        a = plain(a)
         m = [[Fraction(a[i, j]) for j in range(n)] + [Fraction(int(i == j)) for j in range(n)] for i in range(n)]
         for c in range(n):
             p = next((r for r in range(c, n) if m[r][c] != 0), None)
@@ -526,7 +636,7 @@ class QBackend(Backend):
         for i in range(n):
             for j in range(n):
                 out[i, j] = m[i][n + j]
-        return out
+        return out.view(OArr)
 
     def real_part(self, a):
         return a
@@ -538,14 +648,14 @@ class QBackend(Backend):
         return a
 
     def to_float_abs(self, a):
-        a = np.asarray(a, dtype=object)
+        a = plain(a)
         out = np.empty(a.shape, dtype=float)
         for idx in np.ndindex(a.shape):
             out[idx] = abs(float(a[idx]))
         return out
 
     def to_complex(self, a):
-        a = np.asarray(a, dtype=object)
+        a = plain(a)
         out = np.empty(a.shape, dtype=complex)
         for idx in np.ndindex(a.shape):
             out[idx] = complex(float(a[idx]))
@@ -556,21 +666,21 @@ class QBackend(Backend):
             p = complex(params[0])
             if p.imag == 0 and float(p.real).is_integer():
                 n = int(p.real)
-                return lambda x: np.asarray(x, dtype=object) ** n
+                return lambda x: fix(np.asarray(x, dtype=object)) ** n
         raise IllConditioned("non-polynomial function %s in rational backend" % name)
 
     def atan2(self, y, x):
         raise IllConditioned("atan2 in rational backend")
 
     def sign(self, x):
-        x = np.asarray(x, dtype=object)
+        x = plain(x)
         out = np.empty(x.shape, dtype=object)
         for idx in np.ndindex(x.shape):
             out[idx] = Fraction((x[idx] > 0) - (x[idx] < 0))
-        return out
+        return out.view(OArr)
 
     def compare(self, op, a, b):
-        a, b = np.broadcast_arrays(np.asarray(a, dtype=object), np.asarray(b, dtype=object))
+        a, b = bcast(np.asarray(a, dtype=object), np.asarray(b, dtype=object))
         out = np.empty(a.shape, dtype=bool)
         for idx in np.ndindex(a.shape):
             x, y = a[idx], b[idx]
@@ -584,6 +694,7 @@ class QBackend(Backend):
         pass
 
     def small_divisor(self, arr):
+        arr = plain(arr)
         for idx in np.ndindex(arr.shape):
             if arr[idx] == 0:
                 raise IllConditioned("division by zero")
@@ -607,7 +718,7 @@ def primal(x, d):
 
 def jaddc(B, x, c, d):
     """x + c for a plain scalar constant c (added to the primal part only)."""
-    out = np.array(x, copy=True)
+    out = acopy(x)
     out[(0,) * d] = out[(0,) * d] + B.scalar(c)
     return out
 
@@ -619,8 +730,8 @@ def mul(x, y, d):
     c, e = y[0], y[1]
     p = mul(a, c, d - 1)
     q = mul(a, e, d - 1) + mul(b, c, d - 1)
-    p, q = np.broadcast_arrays(p, q)
-    return np.stack([p, q])
+    p, q = bcast(p, q)
+    return stack([p, q])
 
 
 def lift(B, f, fp):
@@ -630,7 +741,7 @@ def lift(B, f, fp):
         if d == 0:
             return f(x)
         x0 = x[0]
-        return np.stack([g(x0, d - 1), mul(fp(x0, d - 1), x[1], d - 1)])
+        return stack([g(x0, d - 1), mul(fp(x0, d - 1), x[1], d - 1)])
 
     return g
 
@@ -661,7 +772,7 @@ def is_const_jet(x, d):
     flat = arr.reshape((2**d,) + arr.shape[d:])
     rest = flat[1:]
     if rest.dtype == object:
-        return all(v == 0 for v in rest.ravel())
+        return all(v == 0 for v in plain(rest).ravel())
     return not np.any(rest)
 
 
@@ -790,8 +901,8 @@ def jatan2(B, y, x, d):
     num = mul(x0, y1, d - 1) - mul(y0, x1, d - 1)
     p = jatan2(B, y0, x0, d - 1)
     q = mul(num, jrecip(B, den, d - 1), d - 1)
-    p, q = np.broadcast_arrays(p, q)
-    return np.stack([p, q])
+    p, q = bcast(p, q)
+    return stack([p, q])
 
 
 def jpow(B, x, y, d):
@@ -827,9 +938,9 @@ def jabs(B, x, d):
 
 def jselect(mask, a, b, d):
     """Elementwise choice between jets a and b by a boolean mask on the tensor axes."""
-    a, b = np.broadcast_arrays(a, b)
+    a, b = bcast(a, b)
     m = np.broadcast_to(mask, a.shape[d:])
-    return np.where(m, a, b)
+    return where(m, a, b)
 
 
 # -- matrices ------------------------------------------------------------------------
@@ -858,7 +969,7 @@ def jinv(B, a, d):
         return _apply2d(B.inv, a, a.shape[-2:])
     i0 = jinv(B, a[0], d - 1)
     i1 = -jmatmul(jmatmul(i0, a[1], d - 1), i0, d - 1)
-    return np.stack([i0, i1])
+    return stack([i0, i1])
 
 
 def jdet(B, a, d):
@@ -869,11 +980,11 @@ def jdet(B, a, d):
     # derivative by cofactor expansion (valid also for singular primal part):
     n = a.shape[-1]
     if n == 1:
-        return np.stack([d0, a[1][..., 0, 0]])
+        return stack([d0, a[1][..., 0, 0]])
     total = None
     for col in range(n):
-        m = np.array(a0, copy=True)
+        m = acopy(a0)
         m[..., :, col] = a[1][..., :, col]
         t = jdet(B, m, d - 1)
         total = t if total is None else total + t
-    return np.stack([d0, total])
+    return stack([d0, total])
